@@ -2419,3 +2419,114 @@ func c09r17(rc *core.RC) {
 		rc.Unknown("decoder/text-unmarshaler-twins", token.NoPos, "found %d of the six obligations", n)
 	}
 }
+
+// ---- C09.R18 every Decoder method that can fail looks at the reader's error ----
+
+// Stream.read keeps a reader error other than io.EOF in Stream.readErr and reports "no more input". To the scanners
+// that is the end of the input: a number ends there, Token answers io.EOF. The methods of json.Decoder that return
+// an error therefore have to look at readErr (directly, through Stream.ReadErr, or in the Stream method they call)
+// before they answer: Decode did, Token did not (the caller of Token saw a clean end of input after a failed read).
+func c09r18(rc *core.RC) {
+	p := rc.P
+	jp := p.Pkg("json")
+	if jp == nil {
+		rc.Unknown("json", token.NoPos, "package not found")
+		return
+	}
+	looks := func(fd *ast.FuncDecl) bool {
+		info := p.Info(fd)
+		hit := false
+		written := map[ast.Expr]bool{}
+		ast.Inspect(fd.Body, func(m ast.Node) bool {
+			if as, ok := m.(*ast.AssignStmt); ok {
+				for _, l := range as.Lhs {
+					written[core.Unparen(l)] = true
+				}
+			}
+			return true
+		})
+		ast.Inspect(fd.Body, func(m ast.Node) bool {
+			switch x := m.(type) {
+			case *ast.SelectorExpr:
+				if f := core.FieldOf(info, x); f != nil && f.Name() == "readErr" && !written[x] {
+					hit = true
+				}
+			case *ast.CallExpr:
+				if core.CalleeName(info, x) == "decoder.Stream.ReadErr" {
+					hit = true
+				}
+			}
+			return true
+		})
+		return hit
+	}
+	var reach func(fd *ast.FuncDecl, depth int, seen map[*ast.FuncDecl]bool) bool
+	reach = func(fd *ast.FuncDecl, depth int, seen map[*ast.FuncDecl]bool) bool {
+		if fd == nil || fd.Body == nil || seen[fd] {
+			return false
+		}
+		seen[fd] = true
+		if looks(fd) {
+			return true
+		}
+		if depth >= 2 {
+			return false
+		}
+		info := p.Info(fd)
+		found := false
+		ast.Inspect(fd.Body, func(m ast.Node) bool {
+			c, ok := m.(*ast.CallExpr)
+			if !ok || found {
+				return true
+			}
+			f := core.Callee(info, c)
+			if f == nil || f.Pkg() == nil {
+				return true
+			}
+			// methods of Decoder and of Stream only: the value decoders below have no business with the reader
+			sig, _ := f.Type().(*types.Signature)
+			if sig == nil || sig.Recv() == nil {
+				return true
+			}
+			rt := strings.TrimPrefix(sig.Recv().Type().String(), "*")
+			if !strings.HasSuffix(rt, "go-json.Decoder") && !strings.HasSuffix(rt, "decoder.Stream") {
+				return true
+			}
+			if reach(p.DeclOf(f), depth+1, seen) {
+				found = true
+			}
+			return true
+		})
+		return found
+	}
+	n := 0
+	for _, fd := range p.Funcs("json") {
+		if fd.Recv == nil || fd.Body == nil || !fd.Name.IsExported() {
+			continue
+		}
+		fn, _ := jp.TypesInfo.Defs[fd.Name].(*types.Func)
+		if fn == nil {
+			continue
+		}
+		sig := fn.Type().(*types.Signature)
+		if !strings.HasSuffix(strings.TrimPrefix(sig.Recv().Type().String(), "*"), "go-json.Decoder") {
+			continue
+		}
+		hasErr := false
+		for i := 0; i < sig.Results().Len(); i++ {
+			if sig.Results().At(i).Type().String() == "error" {
+				hasErr = true
+			}
+		}
+		if !hasErr {
+			continue
+		}
+		n++
+		name := p.FuncName(fd)
+		rc.Touch(name)
+		rc.Check(reach(fd, 0, map[*ast.FuncDecl]bool{}), name+"/reader-error-looked-at", fd.Pos(), "the method returns an error and reads from the stream: it (or the Decoder/Stream method it calls) has to look at Stream.readErr, or a reader failure reaches the caller as the end of the input (io.EOF, or a number cut off where the read failed)")
+	}
+	if n < 4 {
+		rc.Unknown("json.Decoder/methods-with-error", token.NoPos, "found %d exported methods of Decoder that return an error (confirmed: 4)", n)
+	}
+}
